@@ -14,6 +14,8 @@ def sequential(run, rng, n, steps):
     items = []
     for i in range(n):
         cfg = {"storage": rng.choice(["file", "ram"]), "compound": rng.random() < 0.7, "reopen": i % 3 == 1}
+        if cfg["storage"] == "file" and i % 2 == 0:
+            cfg["mmap"] = False
         seed = rng.randrange(1 << 30)
         w = ixdriver.IxWorld(**{k: v for k, v in cfg.items() if k != "history"})
         w.rich_probe = True
@@ -38,6 +40,8 @@ def concurrent(run, rng, n, commits=None, nreaders=2):
     items = []
     for i in range(n):
         cfg = {"storage": rng.choice(["file", "ram"]), "compound": rng.random() < 0.7}
+        if cfg["storage"] == "file" and i % 2 == 1:
+            cfg["mmap"] = False
         seed = rng.randrange(1 << 30)
         commits = rng.choice([6, 12])      # 12: generations cross a digit boundary (9 -> 10)
         w = ixdriver.IxWorld(**cfg)
@@ -112,6 +116,85 @@ def concurrent(run, rng, n, commits=None, nreaders=2):
     return items
 
 
+def staged_open(run, rng, n):
+    """The race of the retry loop in FileIndex.reader(), made deterministic: a reader has read the TOC and is about
+    to open its first segment file when another writer commits a merge that removes that segment (the writer's
+    whole transaction runs inside the storage gate of the reader's operation).  The reader must come back with a
+    searcher of one of the committed generations (the code's answer: it reads the TOC again)."""
+    items = []
+    for i in range(n):
+        cfg = {"storage": ["file", "ram", "file"][i % 3], "compound": i % 4 != 3, "scenario": "staged-open",
+               "via": ["searcher", "refresh"][(i // 3) % 2]}
+        if cfg["storage"] == "file" and i % 2 == 0:
+            cfg["mmap"] = False
+        seed = rng.randrange(1 << 30)
+        w = ixdriver.IxWorld(**{k: v for k, v in cfg.items() if k not in ("scenario", "via")})
+        w.rich_probe = True
+        try:
+            r = random.Random(seed)
+            keys = ["k1", "k2", "k3", "k4", "k5"]
+            for c in range(r.choice([2, 3])):
+                name, wr = w.writer()
+                k = keys[c]
+                w.api(name, "delete", k)
+                w.api(name, "add", k)
+                w.actor(name)
+                wr.update_document(key=k, body=u"xx %s" % k, n=len(k))
+                wr.commit(merge=False)
+            held = None
+            if cfg["via"] == "refresh":
+                hname = w.new_reader_name()
+                ok, held = w.guarded(hname, "searcher", w.reader_handle().searcher)
+                if ok:
+                    w.probe(hname, held)
+                # (a segment the held searcher does not have yet, so that refresh() has something to open)
+                name, wr = w.writer()
+                w.api(name, "delete", "k4")
+                w.api(name, "add", "k4")
+                w.actor(name)
+                wr.update_document(key=u"k4", body=u"xx k4", n=2)
+                wr.commit(merge=False)
+            rname = w.new_reader_name()
+            state = {"fired": False, "busy": False}
+
+            def gate(op, an, rname=rname):
+                if state["busy"] or state["fired"] or w.log.who() != rname:
+                    return
+                if op == "open" and an.startswith("seg:"):
+                    state["fired"] = state["busy"] = True
+                    try:
+                        name, wr = w.writer()
+                        w.api(name, "delete", "k5")
+                        w.api(name, "add", "k5")
+                        w.actor(name)
+                        wr.update_document(key=u"k5", body=u"xx k5", n=2)
+                        wr.commit(optimize=True)
+                    finally:
+                        w.actor(rname)
+                        state["busy"] = False
+            w.log.gate = gate
+            try:
+                if held is not None:
+                    ok, s = w.guarded(rname, "refresh", held.refresh)
+                else:
+                    ok, s = w.guarded(rname, "searcher", w.reader_handle().searcher)
+            finally:
+                w.log.gate = None
+            if ok:
+                w.probe(rname, s)
+                name2 = w.new_reader_name()
+                ok2, s2 = w.guarded(name2, "refresh", s.refresh)
+                if ok2:
+                    w.probe(name2, s2)
+            t = w.trace()
+            run.count(len(t))
+            items.append({"trace": t, "writers": w.writers, "readers": w.readers, "cfg": dict(cfg, fired=state["fired"]),
+                          "seed": seed})
+        finally:
+            w.close()
+    return items
+
+
 def check(run):
     quick = run.tier == "quick"
     rng = random.Random(run.seed + 303)
@@ -122,6 +205,10 @@ def check(run):
     ixcommon.model_check(run, "IndexStoreMC_small.cfg" if quick else "IndexStoreMC.cfg", "IndexStoreMC")
     items = sequential(run, rng, 25 if quick else 250, 14)
     items += concurrent(run, rng, 6 if quick else 60)
+    staged = staged_open(run, rng, 6 if quick else 24)
+    if not any(it["cfg"]["fired"] for it in staged):
+        run.machinery("vacuity: no staged reader open reached a segment file")
+    items += staged
     rejects = ixcommon.validate(run, items)
     ixcommon.report(run, "c03", items, rejects)
     for it in items:
